@@ -89,7 +89,7 @@ pub fn main(args: &Args) -> Report {
     let mut prep = Prep::default();
     let mut out = CaseOut::default();
     let mut rng = Rng::new(args.seed);
-    let rounds = if args.thorough() { 60 } else { 15 };
+    let rounds = if args.thorough() { 600 } else { 15 };
     let cands = candidates();
     let mut usable = 0u64;
     for round in 0..rounds {
